@@ -9,12 +9,12 @@ sys.path.insert(0, os.path.dirname(os.path.dirname(os.path.dirname(os.path.abspa
 from vlib import core, gokernel
 
 STD = ['strings', 'unicode/utf8', 'unicode', 'internal/bytealg', 'errors', 'fmt', 'sort', 'slices', 'bytes', 'io', 'strconv', 'go/token', 'go/scanner', 'go/parser', 'go/ast', 'regexp', 'regexp/syntax', 'path', 'path/filepath',
-       'go/build/constraint', 'internal/godebugs', 'internal/godebug', 'cmp', 'maps', 'iter', 'sync', 'sync/atomic', 'github.com/gopherjs/gopherjs/compiler/astutil']
+       'go/build/constraint', 'internal/godebugs', 'internal/godebug', 'cmp', 'maps', 'iter', 'sync', 'sync/atomic', 'github.com/gopherjs/gopherjs/compiler/astutil', 'golang.org/x/tools/go/buildutil', 'go/build', 'io/fs', 'os', 'time', 'internal/oserror']
 
 
 def main():
     tier = core.tier()
-    k = gokernel.Kernel('C12', 'build', ['augment_harness.go'], init=['github.com/gopherjs/gopherjs/build'] + STD)
+    k = gokernel.Kernel('C12', 'build', ['augment_harness.go'], init=['github.com/gopherjs/gopherjs/build'] + STD, stubs=[('go/build.defaultContext', 'VStub_DefaultContextC12')])
     rc, ev = gokernel.run_kernels('C12', [k], tier,
                                   title='the overlay merge (augmentOverlayFile / augmentOriginalImports / augmentOriginalFile / pruneImports / finalizeRemovals) on every combination of overlay choices for one original file',
                                   bounds={'original': 'one file with a function, a generic function, a type with value and pointer methods, a second type with a method, a multi-value var spec, a single-call multi-value var spec, a constant, blank and dot imports, three imports each used by one declaration, untouched declarations',
